@@ -40,6 +40,7 @@ type Profile struct {
 	Own        []string // violation classes of the property being checked: only these (and a diverged reference) end a run
 	InodeExhaust bool // fill the inode table first (thorough tier of C08/C09)
 	DeleteAll  bool // C05: delete everything at the end; only the root may remain
+	DeadOnly   bool // bad handles are dead handles of this session only (other sessions share the server)
 }
 
 type Violation struct {
@@ -188,10 +189,12 @@ func (s *Sess) handleFor(kind int) []byte {
 	r := s.rng
 	if r.Intn(100) < s.p.PDead {
 		dead := s.m.DeadFHs()
-		if len(dead) > 0 && r.Intn(3) != 0 {
+		if len(dead) > 0 && (s.p.DeadOnly || r.Intn(3) != 0) {
 			return dead[r.Intn(len(dead))]
 		}
-		return s.garbageHandle()
+		if !s.p.DeadOnly {
+			return s.garbageHandle()
+		}
 	}
 	if r.Intn(100) < s.p.PWrongKind {
 		if o := s.pickObj(0); o != nil {
